@@ -459,7 +459,16 @@ class Verifier(Engine):
         try:
             return from_py(ast.literal_eval(node))
         except Exception:  # noqa
-            raise OutOfSubset('non-literal default argument')
+            pass
+        # a module-level constant of the callee's module (evaluated when the def was executed; module constants are taken
+        # as never rebound, as everywhere else)
+        mod = getattr(self, '_callee_mod', None)
+        if isinstance(node, ast.Name) and mod:
+            import importlib
+            v = getattr(importlib.import_module(mod), node.id, self)
+            if v is None or isinstance(v, (int, str, bool)):
+                return from_py(v)
+        raise OutOfSubset('non-literal default argument')
 
     def coerce(self, v, kind, st):
         """View an argument value as the kind the callee's contract declares."""
@@ -512,7 +521,7 @@ class Verifier(Engine):
             smt.STATS.setdefault('trusted_used', set()).add(key)       # reported per property in the evidence
         fn_node = None
         try:
-            fn_node, _, _ = source.find_def(qual, 'setter' if setter else None)
+            fn_node, self._callee_mod, _ = source.find_def(qual, 'setter' if setter else None)
         except BindingError:
             if not (ctr.trusted and (ctr.params or key.startswith('ext:'))):
                 raise
@@ -1204,6 +1213,17 @@ class Verifier(Engine):
                 handled = False
                 for h in s.handlers:
                     names = self.handler_names(h)
+                    subs = [n_ for n_ in (names or []) if o.exc in EXC_PARENTS.get(n_, [])]
+                    if subs and str(o.site).startswith('call ') and not exc_matches(o.exc, names):
+                        # a callee declared to raise X may raise any subclass of X: a handler for a subclass catches those
+                        # (forked copy), the rest goes on to the later handlers
+                        hs = o.st.fork()
+                        hs.pend = []
+                        if h.name:
+                            hs.env[h.name] = fresh('any')
+                        hs.env['$handling'] = subs[0]
+                        outs += self.exec_block(hs, h.body)
+                        continue
                     if exc_matches(o.exc, names):
                         hs = o.st
                         hs.pend = []
